@@ -184,13 +184,65 @@ Definition mseek (s : mst) (off whence : Z) : Z * mst :=
   | _ => (M_FATAL, s)
   end.
 
-Inductive mop := MRead | MSeek (off whence : Z).
-Inductive mout := MBlk (b : bytes) (p : Z) | MPos (r : Z) (p : Z).
+(* ---- __archive_read_filter_consume / advance_file_pointer ---- *)
+(* client_skip_proxy for a client with a seek callback and no skip callback: requests over 64k are
+   skipped with the seeker, inside the current node only *)
+Definition skip_by_seek (s : mst) (req : Z) : Z * mst :=
+  if 65536 <? req then
+    let before := npos s in
+    let end_ := nsize s (cursor s) in
+    let r := if end_ <? before then 0 else if end_ - before <? req then end_ - before else req in
+    (r, mkM (nodes s) (bsz s) (cursor s) (before + r) (tab s) (pending s) (powner s) (meof s) (fpos s))
+  else (0, s).
+
+(* the read loop of advance_file_pointer: read and discard, switching nodes at their ends;
+   returns the number of bytes skipped here *)
+Fixpoint adv_loop (fuel : nat) (s : mst) (req acc : Z) : Z * mst :=
+  match fuel with
+  | O => (acc, s)
+  | S f =>
+    let blk := firstn (bsz s) (skipn (Z.to_nat (npos s)) (node s (cursor s))) in
+    match blk with
+    | [] =>
+      if Nat.eqb (S (cursor s)) (nnodes s) then
+        (acc, mkM (nodes s) (bsz s) (cursor s) (npos s) (tab s) [] (powner s) true (fpos s))
+      else adv_loop f (switch s (S (cursor s))) req acc
+    | _ :: _ =>
+      let n := zlen blk in
+      if n >=? req then
+        (acc + req, mkM (nodes s) (bsz s) (cursor s) (npos s + n) (tab s) (skipn (Z.to_nat req) blk) (cursor s)
+                        (meof s) (fpos s + req))
+      else adv_loop f (mkM (nodes s) (bsz s) (cursor s) (npos s + n) (tab s) [] (powner s) (meof s) (fpos s + n))
+                    (req - n) (acc + n)
+    end
+  end.
+
+Definition advance (s : mst) (request : Z) : Z * mst :=
+  (* the client buffer first *)
+  let k := Z.min request (zlen (pending s)) in
+  let s1 := mkM (nodes s) (bsz s) (cursor s) (npos s) (tab s) (skipn (Z.to_nat k) (pending s)) (powner s) (meof s) (fpos s + k) in
+  let req := request - k in
+  if req =? 0 then (k, s1)
+  else
+    let '(sk, s2) := skip_by_seek s1 req in
+    let s3 := mkM (nodes s2) (bsz s2) (cursor s2) (npos s2) (tab s2) (pending s2) (powner s2) (meof s2) (fpos s2 + sk) in
+    if req - sk =? 0 then (k + sk, s3)
+    else adv_loop (length (concat (nodes s)) + nnodes s + 1) s3 (req - sk) (k + sk).
+
+Definition consume (s : mst) (request : Z) : Z * mst :=
+  if request <? 0 then (M_FATAL, s)
+  else if request =? 0 then (0, s)
+  else let '(sk, s') := advance s request in
+       if sk =? request then (sk, s') else (M_FATAL, s').
+
+Inductive mop := MRead | MSeek (off whence : Z) | MConsume (n : Z).
+Inductive mout := MBlk (b : bytes) (p : Z) | MPos (r : Z) (p : Z) | MCons (r : Z) (p : Z).
 
 Definition mstep (s : mst) (o : mop) : mst * mout :=
   match o with
   | MRead => let '(b, s') := read_block s in (s', MBlk b (fpos s'))
   | MSeek off wh => let '(r, s') := mseek s off wh in (s', MPos r (fpos s'))
+  | MConsume n => let '(r, s') := consume s n in (s', MCons r (fpos s'))
   end.
 
 Fixpoint mrun (s : mst) (ops : list mop) : mst * list mout :=
